@@ -412,12 +412,25 @@ def build_trace(job):
             c = B.prod("clear", lambda: clr(B.R(a)), a=a)
             if c:
                 B.obs("sub", lambda: g2p.subgroup_check(B.R(c)), a=c)
+        # the identity with FQ-OBJECT zero coefficients in z (the classes accept IntOrFQ)
+        try:
+            F_ = api.F
+            zobj = F_(0) if group == 1 else F_([m.FQ(0), m.FQ(0)])
+            oq = B.prod("inf", lambda: (F_.one(), F_.one(), zobj))
+            if oq:
+                B.obs("sub", lambda: g2p.subgroup_check(B.R(oq)), a=oq)
+                B.obs("isinf", lambda: m.is_inf(B.R(oq)), a=oq)
+                B.prod("add", lambda: m.add(B.R(oq), B.R(g)), a=oq, b=g)
+        except Exception:  # noqa: BLE001 -- recorded by the events above when they fail
+            pass
+        from py_ecc.optimized_bls12_381 import optimized_clear_cofactor as occ
+        clr_low = occ.multiply_clear_cofactor_G1 if group == 1 else occ.multiply_clear_cofactor_G2
         for _ in range(2 if quick else 8):      # arbitrary curve points (unknown logarithm)
             if B.dead:
                 break
             W = api.from_affine(api.random_point(rng))
             try:
-                c1 = clr(W)
+                c1 = clr(W) if _ % 2 == 0 else clr_low(W)          # the entry point of hash_to_curve and the low-level one
                 c2 = m.multiply(W, heff)
                 B._ev(op="clrany", n=limbs(heff), id=B._id(c1), id2=B._id(c2),
                       res=1 if g2p.subgroup_check(c1) is True else 0)
